@@ -5,6 +5,13 @@ use paseto_json::jiff::Timestamp;
 use paseto_json::{ForAudience, ForSubject, FromIssuer, HasExpiry, RegisteredClaims, Time, Validate};
 use std::time::Duration;
 
+/// jiff builds its (here unreachable) overflow errors with `format!`; formatting integers is a text
+/// loop that stalls symbolic execution, so `alloc::fmt::format` is stubbed by an empty-string version
+/// in the harnesses that go through `Timestamp ± Duration` (formatting is not the subject there)
+pub fn format_stub(_args: core::fmt::Arguments<'_>) -> String {
+    String::new()
+}
+
 const RANGE: i64 = 1 << 36; // ±2177 years, inside jiff's range
 fn ts(s: i64, n: i32) -> Timestamp {
     kani::assume(s > -RANGE && s < RANGE);
@@ -70,7 +77,8 @@ fn plus(a: (i64, i32), l: (u64, u32)) -> (i64, i32) {
 }
 
 #[kani::proof]
-#[kani::unwind(4)]
+#[kani::unwind(2)]
+#[kani::stub(alloc::fmt::format, format_stub)]
 fn time_leeway_exact_exp() {
     let (es, en, ws, wn): (i64, i32, i64, i32) = kani::any();
     let ls: u64 = kani::any();
@@ -87,8 +95,50 @@ fn time_leeway_exact_exp() {
     kani::cover!(!got);
 }
 
+/// narrower ranges of the two harnesses above (the full-range ones are thorough-tier):
+/// timestamps within ±2^20 s of the epoch, leeway below 4 s with every nanosecond value
 #[kani::proof]
-#[kani::unwind(4)]
+#[kani::unwind(2)]
+#[kani::stub(alloc::fmt::format, format_stub)]
+fn time_leeway_narrow_exp() {
+    let (es, en, ws, wn): (i64, i32, i64, i32) = kani::any();
+    let ls: u64 = kani::any();
+    let ln: u32 = kani::any();
+    kani::assume(ls < 4 && ln < 1_000_000_000);
+    kani::assume(es > -(1 << 20) && es < (1 << 20) && ws > -(1 << 20) && ws < (1 << 20));
+    let (exp, now) = (ts(es, en), ts(ws, wn));
+    let mut c = RegisteredClaims::default();
+    c.exp = Some(exp);
+    let v = Time::valid_at(now).with_leeway(Duration::new(ls, ln));
+    let got = ok(v.validate(&c));
+    let want = ge((es, en), minus((ws, wn), (ls, ln)));
+    assert!(got == want);
+    kani::cover!(got && (es < ws || (es == ws && en < wn)), "accepted only thanks to the leeway");
+    kani::cover!(!got);
+}
+#[kani::proof]
+#[kani::unwind(2)]
+#[kani::stub(alloc::fmt::format, format_stub)]
+fn time_leeway_narrow_nbf() {
+    let (bs, bn, ws, wn): (i64, i32, i64, i32) = kani::any();
+    let ls: u64 = kani::any();
+    let ln: u32 = kani::any();
+    kani::assume(ls < 4 && ln < 1_000_000_000);
+    kani::assume(bs > -(1 << 20) && bs < (1 << 20) && ws > -(1 << 20) && ws < (1 << 20));
+    let (nbf, now) = (ts(bs, bn), ts(ws, wn));
+    let mut c = RegisteredClaims::default();
+    c.nbf = Some(nbf);
+    let v = Time::valid_at(now).with_leeway(Duration::new(ls, ln));
+    let got = ok(v.validate(&c));
+    let want = ge(plus((ws, wn), (ls, ln)), (bs, bn));
+    assert!(got == want);
+    kani::cover!(got && (bs > ws || (bs == ws && bn > wn)), "accepted only thanks to the leeway");
+    kani::cover!(!got);
+}
+
+#[kani::proof]
+#[kani::unwind(2)]
+#[kani::stub(alloc::fmt::format, format_stub)]
 fn time_leeway_exact_nbf() {
     let (bs, bn, ws, wn): (i64, i32, i64, i32) = kani::any();
     let ls: u64 = kani::any();
@@ -106,7 +156,8 @@ fn time_leeway_exact_nbf() {
 }
 
 #[kani::proof]
-#[kani::unwind(4)]
+#[kani::unwind(2)]
+#[kani::stub(alloc::fmt::format, format_stub)]
 fn time_leeway_both_and_absent() {
     let (es, en, bs, bn, ws, wn): (i64, i32, i64, i32, i64, i32) = kani::any();
     let ls: u64 = kani::any();
@@ -169,6 +220,52 @@ fn same(a: &str, b: &str) -> bool {
     }
     e
 }
+
+/// `now` and the leeway concrete (so jiff's `Timestamp ± Duration` folds to constants — with both
+/// symbolic its error paths' drop glue stalls symbolic execution), exp / nbf and their presence fully
+/// symbolic: the leeway widens both bounds by exactly that amount, to the nanosecond.
+/// The table covers a borrow (now.ns < leeway.ns), a carry, a sub-second-only leeway, a whole-second
+/// leeway, a 1 ns leeway, zero leeway and a negative `now`.
+const LEEWAY_CASES: [((i64, i32), (u64, u32)); 7] = [
+    ((1000, 500), (1, 500_000_000)),
+    ((1000, 900_000_000), (0, 250_000_000)),
+    ((1_700_000_000, 123_456_789), (3600, 999_999_999)),
+    ((50, 0), (2, 0)),
+    ((0, 0), (0, 1)),
+    ((77, 77), (0, 0)),
+    ((-5, 3), (7, 999_999_998)),
+];
+fn leeway_concrete(k: usize) {
+    let ((ws, wn), (ls, ln)) = LEEWAY_CASES[k];
+    let (es, en, bs, bn): (i64, i32, i64, i32) = kani::any();
+    let has_exp: bool = kani::any();
+    let has_nbf: bool = kani::any();
+    let (exp, nbf) = (ts(es, en), ts(bs, bn));
+    let now = Timestamp::new(ws, wn).unwrap();
+    let mut c = RegisteredClaims::default();
+    if has_exp {
+        c.exp = Some(exp);
+    }
+    if has_nbf {
+        c.nbf = Some(nbf);
+    }
+    let v = Time::valid_at(now).with_leeway(Duration::new(ls, ln));
+    let got = ok(v.validate(&c));
+    let want = (!has_exp || ge((es, en), minus((ws, wn), (ls, ln)))) && (!has_nbf || ge(plus((ws, wn), (ls, ln)), (bs, bn)));
+    assert!(got == want);
+    kani::cover!(got && has_exp && has_nbf);
+    kani::cover!(!got && has_exp && !has_nbf);
+    kani::cover!(!got && !has_exp && has_nbf);
+}
+macro_rules! lc {
+    ($($name:ident = $k:literal),*) => {$(
+        #[kani::proof]
+        #[kani::unwind(4)]
+        fn $name() { leeway_concrete($k); }
+    )*};
+}
+lc!(time_leeway_case0_borrow = 0, time_leeway_case1_carry = 1, time_leeway_case2_large = 2, time_leeway_case3_whole = 3,
+    time_leeway_case4_1ns = 4, time_leeway_case5_zero = 5, time_leeway_case6_negative_now = 6);
 
 /// which: 0 sub/ForSubject, 1 iss/FromIssuer, 2 aud/ForAudience; claim of length A (or absent),
 /// expected string of length B
